@@ -206,6 +206,7 @@ class Broken(Exception):
 
 
 SIGS = {}
+TEXTS = {}          # lean name -> generated definition text
 ALPHA = {}          # lean name -> parameter types + hash of the body with positional parameter names
 SIGNATURES = {}     # lean name -> parameter list + result type of the generated definition
 
@@ -246,7 +247,10 @@ def ctype(node_or_type):
     alias = {"Elf_Half": "uint16_t", "Elf_Word": "uint32_t", "Elf_Sword": "int32_t",
              "Elf_Xword": "uint64_t", "Elf_Sxword": "int64_t", "Elf32_Addr": "uint32_t",
              "Elf32_Off": "uint32_t", "Elf64_Addr": "uint64_t", "Elf64_Off": "uint64_t",
-             "std::streamoff": "long", "std::streamsize": "long"}
+             "std::streamoff": "long", "std::streamsize": "long",
+             # a stream position is a signed 64-bit offset (std::fpos<mbstate_t> wraps a streamoff; the
+             # conversion state it also carries is never used by ELFIO)
+             "std::streampos": "long", "std::fpos<__mbstate_t>": "long"}
     if q2 in alias:
         return BUILTIN[alias[q2]]
     if q.endswith("*"):
@@ -268,6 +272,8 @@ class Tr:
         self.locals = dict(locals_ or {})   # name -> lean type of variables bound inside
         self.opaque = False     # site option: calls with arguments become free variables
         self.byte_ptr = None    # name of the `const unsigned char*` parameter, if any
+        self.renamable = set()  # free variables that are plain locals/parameters (alpha-renamable)
+        self.inline = {}
         self.cur_byte = None    # Lean name standing for *p inside a string-walk loop
 
     def fv(self, name, ty):
@@ -347,6 +353,8 @@ class Tr:
         if k == "DeclRefExpr":
             rd = n.get("referencedDecl", {})
             nm = rd.get("name", "")
+            if nm in getattr(self, "inline", {}) and rd.get("kind") == "VarDecl":
+                return self.expr(self.inline[nm])      # a new `const` local standing for its initialiser
             if rd.get("kind") == "EnumConstantDecl" or (nm in self.consts and lname(nm) not in self.locals
                                                        and not any(f == lname(nm) for f, _ in self.free)):
                 if nm not in self.consts:
@@ -356,6 +364,7 @@ class Tr:
             ct = ctype(n)
             if ct[0] == "ptr":
                 raise Broken(f"pointer variable {nm} used as a value")
+            self.renamable.add(lname(nm))        # a plain local / parameter: its name carries no meaning
             return self.fv(nm, lean_ty(ct))
         if k in ("ImplicitCastExpr", "CStyleCastExpr", "CXXStaticCastExpr", "CXXFunctionalCastExpr",
                  "CXXReinterpretCastExpr", "CXXConstCastExpr"):
@@ -376,6 +385,8 @@ class Tr:
                     return self.fv("_".join(names), "Bool")
             if ck == "PointerToBoolean":
                 return self.ptr_nonnull(sub)
+            if ck == "UserDefinedConversion" and self.fpos_conv(sub) is not None:
+                return self.cast(self.expr(self.fpos_conv(sub)), ctype(self.fpos_conv(sub)), ctype(n))
             raise Broken(f"cast kind {ck}")
         if k == "UnaryOperator":
             op = n["opcode"]; sub = inner[0]
@@ -463,6 +474,28 @@ class Tr:
             if ct[0] == "ptr":
                 raise Broken(f"pointer member {nm} used as a value")
             return self.fv((pre + "_" if pre else "") + nm, lean_ty(ct))
+        if k == "CXXConstructExpr" and len(inner) == 1 and self.is_fpos(n):
+            # std::streampos(off): the position is the offset
+            return self.cast(self.expr(inner[0]), ctype(inner[0]), ctype(n))
+        if k == "CXXMemberCallExpr" and self.fpos_conv(n) is not None:
+            return self.cast(self.expr(self.fpos_conv(n)), ctype(self.fpos_conv(n)), ctype(n))
+        if k == "CXXOperatorCallExpr" and len(inner) == 3 and self.smart_null_test(inner) is not None:
+            # `nullptr == up` / `up != nullptr` on a std::unique_ptr / std::shared_ptr: the same Bool
+            # parameter (per-site `null_style`) as for a raw pointer
+            op, other = self.smart_null_test(inner)
+            style = getattr(self, "null_style", "nonnull")
+            if style == "is_null":
+                v = self.fv(self.ptr_name(other) + "_is_null", "Bool")
+                return v if op == "==" else f"(!{v})"
+            if style in ("null", "null9"):
+                v = self.fv(lname(self.ptr_name(other)) + "_null", "Bool")
+                return v if op == "==" else f"(!{v})"
+            v = self.fv(self.ptr_name(other) + "_nonnull", "Bool")
+            return v if op == "!=" else f"(!{v})"
+        if k == "CXXOperatorCallExpr" and len(inner) == 2 and self.stream_not(inner) is not None:
+            # `!stream` on a std::basic_ios is `stream.fail()` ([iostate.flags]); same parameter name as
+            # an explicit `stream.fail()` call
+            return self.fv(self.stream_not(inner) + "_fail", "Bool")
         if k == "CXXMemberCallExpr":
             callee = inner[0]; args = inner[1:]
             if callee["kind"] == "MemberExpr" and not args:
@@ -574,11 +607,68 @@ class Tr:
             q = re.sub(r"\b(const|struct)\b", "", q or "").strip().replace("ELFIO::", "")
             if q in self.sizes:
                 return f"(BitVec.ofNat {ct[1]} Gen.sizeof_{q})"
+            m = re.fullmatch(r"(?:std::)?array<(.+), (\d+)>", q)
+            if m:
+                # std::array<T, N> is an aggregate holding exactly T[N]
+                try:
+                    return f"{(ctype(m.group(1))[1] // 8) * int(m.group(2))}#{ct[1]}"
+                except Broken:
+                    raise Broken(f"sizeof({q})")
             try:
                 return f"{ctype(q)[1] // 8}#{ct[1]}"
             except Broken:
                 raise Broken(f"sizeof({q})")
         raise Broken(f"expression kind {k}")
+
+    def is_fpos(self, n):
+        t = n.get("type", {})
+        return "fpos<" in (t.get("desugaredQualType") or t.get("qualType") or "")
+
+    def fpos_conv(self, n):
+        """`pos.operator streamoff()` (the conversion std::fpos -> std::streamoff): the fpos operand, else None"""
+        if n.get("kind") != "CXXMemberCallExpr":
+            return None
+        ch = strip_comments(n)
+        if len(ch) != 1 or ch[0].get("kind") != "MemberExpr" or not ch[0].get("name", "").startswith("operator "):
+            return None
+        base = strip_comments(ch[0])
+        if len(base) != 1 or not self.is_fpos(base[0]):
+            return None
+        x = base[0]
+        while x.get("kind") in ("ImplicitCastExpr", "MaterializeTemporaryExpr") and \
+                x.get("castKind", "NoOp") == "NoOp" and x.get("inner"):
+            x = strip_comments(x)[-1]
+        return x
+
+    def stream_not(self, inner):
+        """operand name of `operator!` applied to a standard stream, else None"""
+        rd = inner[0]
+        while rd.get("kind") == "ImplicitCastExpr" and rd.get("inner"):
+            rd = rd["inner"][-1]
+        if rd.get("referencedDecl", {}).get("name", "") != "operator!":
+            return None
+        q = inner[1].get("type", {}).get("desugaredQualType") or inner[1].get("type", {}).get("qualType", "")
+        if "basic_ios<" not in q and "stream" not in q:
+            return None
+        nm = self.obj_name(inner[1])
+        return nm if nm and nm != "obj" else None
+
+    def smart_null_test(self, inner):
+        """operands of `operator==` / `operator!=` between a smart pointer and nullptr -> (op, pointer), else None"""
+        rd = inner[0]
+        while rd.get("kind") == "ImplicitCastExpr" and rd.get("inner"):
+            rd = rd["inner"][-1]
+        nm = rd.get("referencedDecl", {}).get("name", "")
+        if nm not in ("operator==", "operator!="):
+            return None
+        a, b = inner[1], inner[2]
+        if self.is_nullptr(a) == self.is_nullptr(b):
+            return None
+        other = b if self.is_nullptr(a) else a
+        q = other.get("type", {}).get("desugaredQualType") or other.get("type", {}).get("qualType", "")
+        if "unique_ptr<" not in q and "shared_ptr<" not in q:
+            return None
+        return nm[len("operator"):], other
 
     def is_null(self, x):
         while x.get("kind") in ("ImplicitCastExpr", "ParenExpr", "CStyleCastExpr") and x.get("inner"):
@@ -1151,13 +1241,20 @@ def select0(fn, sel):
 
 
 def _ast_hash(n):
-    """structure hash of an AST subtree without ids / source positions (fallback when a member of a selector
-    family cannot be translated)"""
+    """structure hash of an AST subtree (fallback when a member of a selector family cannot be translated):
+    node kinds, operators, names, literal values and types only — nothing that depends on where the node
+    stands in the file"""
+    KEEP = ("kind", "opcode", "name", "value", "castKind", "isArrow", "valueCategory", "isPostfix")
     def strip(x):
         if isinstance(x, dict):
-            return {k: strip(v) for k, v in x.items() if k not in ("id", "loc", "range", "previousDecl", "parentDeclContextId")}
-        if isinstance(x, list):
-            return [strip(v) for v in x]
+            d = {k: x[k] for k in KEEP if k in x}
+            if isinstance(x.get("type"), dict):
+                d["type"] = x["type"].get("qualType")
+            if isinstance(x.get("referencedDecl"), dict):
+                d["ref"] = x["referencedDecl"].get("name")
+            if isinstance(x.get("inner"), list):
+                d["inner"] = [strip(v) for v in x["inner"] if isinstance(v, dict) and not v.get("kind", "").endswith("Comment")]
+            return d
         return x
     return "?" + hashlib.md5(json.dumps(strip(n), sort_keys=True).encode()).hexdigest()[:12]
 
@@ -1207,6 +1304,86 @@ def family_sequence(site, consts, sizes, key):
     return seq
 
 
+def local_names(site, key):
+    """names of the local variables declared in the site's function (source order)"""
+    fn = find_function(clang_docs(site["filter"], key), site)
+    names = []
+    for n in walk([c for c in fn["inner"] if c.get("kind") == "CompoundStmt"][0]):
+        if n.get("kind") == "VarDecl" and n.get("name") and n["name"] not in names:
+            names.append(n["name"])
+    return names
+
+
+def inlinable_locals(site, key, old_names):
+    """{name: initialiser node} for locals that did not exist when the lock was written, are declared `const`
+    and are initialised from variables that the function never assigns (so the initialiser has the same value
+    wherever it is evaluated)"""
+    fn = find_function(clang_docs(site["filter"], key), site)
+    body = [c for c in fn["inner"] if c.get("kind") == "CompoundStmt"][0]
+    assigned = set()
+    for n in walk(body):
+        if n.get("kind") in ("BinaryOperator", "CompoundAssignOperator") and n.get("opcode", "").endswith("=") \
+           and n.get("opcode") not in ("==", "!=", "<=", ">="):
+            for x in walk(n["inner"][0]):
+                if x.get("kind") == "DeclRefExpr":
+                    assigned.add(x.get("referencedDecl", {}).get("name"))
+        if n.get("kind") == "UnaryOperator" and n.get("opcode") in ("++", "--"):
+            for x in walk(n):
+                if x.get("kind") == "DeclRefExpr":
+                    assigned.add(x.get("referencedDecl", {}).get("name"))
+    out = {}
+    for n in walk(body):
+        if n.get("kind") == "VarDecl" and n.get("name") not in old_names and n.get("inner") \
+           and n.get("type", {}).get("qualType", "").startswith("const "):
+            init = strip_comments(n)[-1]
+            refs = {x.get("referencedDecl", {}).get("name") for x in walk(init) if x.get("kind") == "DeclRefExpr"}
+            if not (refs & assigned) and not any(x.get("kind") in ("CallExpr", "CXXMemberCallExpr") and False for x in walk(init)):
+                out[n["name"]] = init
+    return out
+
+
+COMMUTATIVE = {"+", "*", "&", "|", "^", "==", "!=", "&&", "||"}
+
+
+def _simple_operand(x):
+    """may be evaluated before or after its sibling without any difference: no calls on other objects, no pointer
+    dereference, no subscript, no assignment"""
+    for n in walk(x):
+        k = n.get("kind")
+        if k in ("ArraySubscriptExpr", "CompoundAssignOperator", "CXXOperatorCallExpr", "CXXNewExpr", "CXXDeleteExpr"):
+            return False
+        if k == "UnaryOperator" and n.get("opcode") in ("*", "++", "--"):
+            return False
+        if k == "BinaryOperator" and n.get("opcode", "").endswith("=") and n.get("opcode") not in ("==", "!=", "<=", ">="):
+            return False
+        if k == "MemberExpr" and n.get("isArrow"):
+            base = [c for c in n.get("inner", []) if isinstance(c, dict)]
+            if not (base and base[0].get("kind") == "CXXThisExpr"):
+                return False
+        if k == "CallExpr":
+            return False
+    return True
+
+
+def chash(n):
+    """hash of an AST subtree modulo the order of the operands of commutative operators (`&&`/`||` only when both
+    operands are simple): equal hashes = the same pure expression up to such swaps"""
+    kids = [chash(c) for c in n.get("inner", []) if isinstance(c, dict) and not c.get("kind", "").endswith("Comment")]
+    if n.get("kind") == "BinaryOperator" and n.get("opcode") in COMMUTATIVE and len(kids) == 2:
+        ops = [c for c in n["inner"] if isinstance(c, dict)]
+        if n["opcode"] not in ("&&", "||") or all(_simple_operand(o) for o in ops):
+            kids = sorted(kids)
+    own = [n.get("kind"), n.get("opcode"), n.get("name"), n.get("value"), n.get("castKind"), n.get("isArrow"),
+           (n.get("type") or {}).get("qualType") if isinstance(n.get("type"), dict) else None,
+           (n.get("referencedDecl") or {}).get("name") if isinstance(n.get("referencedDecl"), dict) else None]
+    return hashlib.md5(json.dumps([own, kids]).encode()).hexdigest()[:16]
+
+
+def site_chash(site, key):
+    fn = find_function(clang_docs(site["filter"], key), site)
+    return chash(select(fn, site.get("select", "function")))
+
+
 def embed_index(old, new, idx):
     """old is a subsequence of new (members were only inserted) -> position of old[idx] in new under the
     leftmost embedding; None otherwise"""
@@ -1228,6 +1405,8 @@ def translate_site(site, consts, sizes, key):
     tr = Tr(consts, sizes)
     tr.null_style = site.get("null_style", "nonnull")
     tr.opaque = bool(site.get("opaque"))
+    tr.inline = site.get("_inline", {})
+    tr.renamable = set()
     params = []
     for p in fn.get("inner", []):
         if p.get("kind") == "ParmVarDecl":
@@ -1289,10 +1468,16 @@ def translate_site(site, consts, sizes, key):
     SIGNATURES[site["lean"]] = sig + " : " + rty
     # alpha-normal form: parameter names replaced by their position.  Two versions of a site with the same
     # normal form are the same function of their arguments (a pure renaming of C++ locals/parameters).
-    nb = body
+    # Only plain locals / function parameters are renamed; names derived from getters and fields
+    # (`seg_virtual_address`, `section_size`) say WHICH value is read and stay.
+    ren = set(tr.renamable) | ({n for n, _t in params} if site.get("select", "function") == "function" else set())
+    nb = body; shape = []
     for i, (n, _t) in enumerate(allp):
-        nb = re.sub(r"(?<![\w.'])" + re.escape(n) + r"(?![\w'])", f"«p{i}»", nb)
-    ALPHA[site["lean"]] = " ".join(t for _n, t in allp) + " : " + rty + " := " + hashlib.md5(nb.encode()).hexdigest()[:16]
+        if n in ren:
+            nb = re.sub(r"(?<![\w.'])" + re.escape(n) + r"(?![\w'])", f"«p{i}»", nb); shape.append(_t)
+        else:
+            shape.append(f"({n} : {_t})")
+    ALPHA[site["lean"]] = " ".join(shape) + " : " + rty + " := " + hashlib.md5(nb.encode()).hexdigest()[:16]
     src = f"{fn.get('loc', {}).get('line', fn.get('range', {}).get('begin', {}).get('line', '?'))}"
     txt = (f"/-- from `{site['filter']}` {site.get('targs', site.get('record', ''))} "
            f"`{site['name']}`{''.join(' <' + t + '>' for t in site.get('fn_targs', []))} [{site.get('select', 'function')}] -/\n"
@@ -1326,27 +1511,77 @@ def main():
     relock = "--relock" in sys.argv or not os.path.exists(lock_path)
     lock = {} if relock else json.load(open(lock_path))
     relocated = {}
-    for s in sites:
+    def with_relocation(s):
+        """translate `s`; when the expression at the locked position is not the locked one (or the selector no
+        longer resolves) and the function only GAINED members of the selector's family — e.g. a guard inserted
+        earlier shifts `if:N` — or the selected variable was merely renamed, follow the expression to its new
+        position.  A changed expression is never relocated: the proofs decide about it."""
+        lk = lock.get(s["lean"]); err = None; txt = None
         try:
             txt = translate_site(s, consts, sizes, key)
-            status[s["lean"]] = "ok"
-            lk = lock.get(s["lean"])
-            if lk and lk.get("seq") and lk.get("alpha") != ALPHA.get(s["lean"]):
-                # The expression at the locked position differs.  If the function only GAINED members of this
-                # selector family (e.g. a guard inserted earlier shifts `if:N`), follow the expression to its new
-                # position; otherwise the expression itself changed and the proofs decide.
-                fam = selector_family(s.get("select", "function"))
-                new_seq = family_sequence(s, consts, sizes, key)
-                j = embed_index(lk["seq"], new_seq or [], fam[1]) if fam and new_seq is not None else None
+        except Broken as e:
+            err = e
+        if lk and lk.get("seq") and (err is not None or lk.get("alpha") != ALPHA.get(s["lean"])):
+            fam = selector_family(s.get("select", "function"))
+            if fam:
+                new_seq = family_sequence(s, consts, sizes, key) or []
+                j = embed_index(lk["seq"], new_seq, fam[1])
                 if j is not None and j != fam[1] and len(new_seq) > len(lk["seq"]):
-                    txt = translate_site(dict(s, select=f"{fam[0]}{j}{fam[2]}"), consts, sizes, key)
+                    t2 = translate_site(dict(s, select=f"{fam[0]}{j}{fam[2]}"), consts, sizes, key)
                     relocated[s["lean"]] = f"{s.get('select')} -> {fam[0]}{j}{fam[2]}"
+                    return t2
+                m = re.match(r"(var|assign):([A-Za-z_]\w*)#$", fam[0])
+                if m and not new_seq:
+                    # the variable is gone: was it renamed?  exactly one other name must carry the same family
+                    # candidates: locals that did not exist when the lock was written
+                    names = [n for n in local_names(s, key) if n not in (lk.get("locals") or [])]
+                    hits = []
+                    for nm in names:
+                        cand = dict(s, select=f"{m.group(1)}:{nm}#{fam[1]}{fam[2]}")
+                        if family_sequence(cand, consts, sizes, key) == lk["seq"]:
+                            hits.append(cand)
+                    if len(hits) == 1:
+                        t2 = translate_site(dict(hits[0], lean=s["lean"]), consts, sizes, key)
+                        if ALPHA.get(s["lean"]) == lk.get("alpha"):
+                            relocated[s["lean"]] = f"{s.get('select')} -> {hits[0]['select']} (renamed)"
+                            return t2
+            if lk.get("chash") and lk.get("text") and err is None:
+                # operands of a commutative operator were exchanged: the locked text is still the function
+                try:
+                    if site_chash(s, key) == lk["chash"]:
+                        SIGNATURES[s["lean"]] = lk["sig"]; ALPHA[s["lean"]] = lk["alpha"]
+                        relocated[s["lean"]] = f"{s.get('select')} operands of commutative operator(s) exchanged; locked text kept"
+                        return lk["text"]
+                except Broken:
+                    pass
+            if lk.get("locals") is not None:
+                # a sub-expression was pulled out into a new `const` local: read through it
+                try:
+                    inl = inlinable_locals(s, key, lk["locals"])
+                    if inl:
+                        t2 = translate_site(dict(s, _inline=inl), consts, sizes, key)
+                        if ALPHA.get(s["lean"]) == lk.get("alpha"):
+                            relocated[s["lean"]] = f"{s.get('select')} read through new const local(s) {sorted(inl)}"
+                            return t2
+                        if err is None:
+                            translate_site(s, consts, sizes, key)     # restore SIGNATURES/ALPHA of the plain form
+                except Broken:
+                    pass
+        if err is not None:
+            raise err
+        return txt
+
+    for s in sites:
+        try:
+            txt = with_relocation(s)
+            status[s["lean"]] = "ok"
         except Broken as e:
             status[s["lean"]] = f"translation-broken: {e}"
             txt = f"-- translation-broken {s['lean']}: {e}\n"
         except Exception as e:  # noqa
             status[s["lean"]] = f"translation-broken: internal {type(e).__name__}: {e}"
             txt = f"-- translation-broken {s['lean']}: internal {type(e).__name__}: {e}\n"
+        TEXTS[s["lean"]] = txt
         files.setdefault(s.get("file", "Sites"), []).append(txt)
     for f, parts in files.items():
         L = ["-- GENERATED by gen/translate.py from /repo/elfio (clang-14 AST). Do not edit.",
@@ -1366,7 +1601,23 @@ def main():
                     seqs[st["lean"]] = family_sequence(st, consts, sizes, key)
                 except Exception:
                     seqs[st["lean"]] = None
-        cur_lock = {k: {"sig": v, "alpha": ALPHA.get(k, ""), "seq": seqs.get(k)} for k, v in SIGNATURES.items()}
+        locs = {}
+        for st in sites:
+            if status.get(st["lean"]) == "ok":
+                try:
+                    locs[st["lean"]] = local_names(st, key)
+                except Exception:
+                    pass
+        chs = {}
+        for st in sites:
+            if status.get(st["lean"]) == "ok":
+                try:
+                    chs[st["lean"]] = site_chash(st, key)
+                except Exception:
+                    pass
+        cur_lock = {k: {"sig": v, "alpha": ALPHA.get(k, ""), "seq": seqs.get(k), "locals": locs.get(k),
+                        "chash": chs.get(k), "text": TEXTS.get(k)}
+                    for k, v in SIGNATURES.items()}
         json.dump(cur_lock, open(lock_path, "w"), indent=0, sort_keys=True)
     else:
         for k, v in SIGNATURES.items():
@@ -1378,7 +1629,7 @@ def main():
     json.dump({"repo_hash": key, "sites": status, "relocated": relocated},
               open(os.path.join(BUILD, "gen_status.json"), "w"), indent=1)
     for k, v in relocated.items():
-        print(f"{k}: relocated {v} (members were inserted before it; expression unchanged)")
+        print(f"{k}: followed a harmless source change: {v}")
     broken = {k: v for k, v in status.items() if v != "ok"}
     for k, v in broken.items():
         print(f"{k}: {v}")
